@@ -495,6 +495,8 @@ def random_program(rng, pkg, nfn=None, with_loads=False):
                 f["stmts"].append(gen.s_call(g, mk_args(True)))
         if rng.random() < 0.2:
             f["uses_builtins"] = True
+        if rng.random() < 0.12:
+            f["alias"] = True  # same-module references go through a module-level alias of the function
         if rng.random() < 0.15:
             f["stmts"].append(gen.s_block(300 + i, inside=rng.random() < 0.5))
         if rng.random() < 0.15:
